@@ -300,7 +300,8 @@ def run_property(prop, tier, seed):
             errors += 1
             continue
         try:
-            r = run_check(chk, tier, seed, budget_s=per)
+            # cheap stand-ins run their full (thorough) scope on every change
+            r = run_check(chk, plan.get("standin_tier_quick", tier) if tier == "quick" else tier, seed, budget_s=per)
         except Exception as e:
             lines.append(f"CHECKER-ERROR property={prop} stand-in {name}: {type(e).__name__}: {e}")
             errors += 1
